@@ -182,4 +182,236 @@ theorem handleGreet_keeps {a0 : A} {s : S} (h : Good a0 s) (hcl : s.c.closed = f
       · exact hk'
       · exact Keeps.trans hk' (Keeps.trans ⟨setHelo_good hk.1 [], rfl⟩ (keeps_write (setHelo_good hk.1 []) _))
 
+/-! ### AUTH -/
+
+theorem connReadLine_same (s : S) : Same s (connReadLine s).1 := ⟨rfl, rfl, rfl⟩
+
+theorem closed_false_of_session {a0 : A} {s : S} (h : Good a0 s) {id : Nat} (hid : s.c.session = some id) :
+    s.c.closed = false := by
+  cases hc : s.c.closed with
+  | false => rfl
+  | true => have := h.shape.closedSess hc; rw [hid] at this; cases this
+
+theorem ev_sasl {a0 : A} {s1 : S} (hg1 : Good a0 s1) {id : Nat} (hid1 : s1.c.session = some id)
+    (hda1 : s1.c.didAuth = false) (hal1 : (s1.c.tls || s1.cfg.insecureAuth) = true)
+    (resp : Option Bytes) (ch : Bytes) (done : Bool) (r : BRes) :
+    ((done && r == BRes.ok) = false → Good a0 (emit s1 (.sasl resp ch done r))) ∧
+    ((done && r == BRes.ok) = true →
+      Good a0 { emit s1 (.sasl resp ch done r) with c := { s1.c with didAuth := true } }) := by
+  constructor
+  · intro hd
+    refine hg1.extend [.sasl resp ch done r] rfl rfl ?_ (by simpa using hg1.shape)
+    simp [Order.run, Order.step, abs, hid1, hda1, hal1, hd]
+  · intro hd
+    refine hg1.extend [.sasl resp ch done r] rfl rfl ?_ ?_
+    · simp [Order.run, Order.step, abs, hid1, hda1, hal1, hd]
+    · exact ⟨hg1.shape.closedSess, hg1.shape.fromSess, hg1.shape.bdatFrom, fun _ hn => by simp [hid1] at hn⟩
+
+theorem saslLoop_keeps {a0 : A} (fuel : Nat) : ∀ {s : S}, Good a0 s → ∀ (id : Nat), s.c.session = some id →
+    s.c.didAuth = false → authAllowed s = true → ∀ (resp : Option Bytes), Keeps a0 s (saslLoop fuel s resp).1 := by
+  induction fuel with
+  | zero => intro s h _ _ _ _ _; exact Keeps.refl h
+  | succ fuel ih =>
+    intro s h id hid hda hal resp
+    unfold saslLoop
+    have hsame := popSasl_same s
+    generalize popSasl s = p at hsame
+    obtain ⟨st, s1⟩ := p
+    simp only at hsame ⊢
+    have hg1 : Good a0 s1 := hsame.good h
+    have hid1 : s1.c.session = some id := by rw [hsame.c]; exact hid
+    have hda1 : s1.c.didAuth = false := by rw [hsame.c]; exact hda
+    have hal1 : (s1.c.tls || s1.cfg.insecureAuth) = true := by
+      have : authAllowed s1 = authAllowed s := by simp [authAllowed, hsame.c, hsame.cfg]
+      simpa [authAllowed] using this.trans hal
+    have hev := ev_sasl hg1 hid1 hda1 hal1 resp st.challenge st.done st.res
+    have hcfg1 : s1.cfg = s.cfg := hsame.cfg
+    split
+    · -- the mechanism panics
+      rename_i hres
+      exact ⟨hev.1 (by simp [hres]), by simp [hcfg1]⟩
+    · rename_i hres
+      split
+      · rename_i hdone
+        have hg2 := hev.2 (by simp [hres, hdone])
+        exact ⟨reply_good hg2 _ _ _, by simp [hcfg1]⟩
+      · rename_i hdone
+        have hg2 := hev.1 (by simp [hdone])
+        have hg3 := replyB_good hg2 334 noEnh [if st.challenge.isEmpty then [] else b64Encode st.challenge]
+        generalize hs3 : replyB (emit s1 (.sasl resp st.challenge st.done st.res)) 334 noEnh
+          [if st.challenge.isEmpty then [] else b64Encode st.challenge] = s3 at hg3 ⊢
+        have hc3 : s3.c = s1.c := by rw [← hs3]; simp
+        have hcfg3 : s3.cfg = s.cfg := by rw [← hs3]; simp [hcfg1]
+        have hsm := connReadLine_same s3
+        generalize connReadLine s3 = q at hsm ⊢
+        obtain ⟨s4, rl⟩ := q
+        simp only at hsm ⊢
+        have hg4 : Good a0 s4 := hsm.good hg3
+        have hcfg4 : s4.cfg = s.cfg := hsm.cfg.trans hcfg3
+        cases rl with
+        | error e => exact ⟨hg4, hcfg4⟩
+        | ok line =>
+          simp only []
+          split
+          · exact ⟨reply_good hg4 _ _ _, by simp [hcfg4]⟩
+          · split
+            · exact ⟨reply_good hg4 _ _ _, by simp [hcfg4]⟩
+            · rename_i r2 _
+              have hk := ih hg4 id (by rw [hsm.c, hc3]; exact hid1) (by rw [hsm.c, hc3]; exact hda1)
+                (by simp [authAllowed, hsm.c, hc3, hcfg4, ← hcfg1]; simpa [hcfg1] using hal1) (some r2)
+              exact ⟨hk.1, hk.2.trans hcfg4⟩
+    · rename_i hne1 hne2
+      have hg2 := hev.1 (by
+        cases hr : st.res <;> simp_all)
+      exact ⟨write_good hg2 _, by simp [hcfg1]⟩
+
+theorem handleAuth_keeps {a0 : A} {s : S} (h : Good a0 s) (arg : Bytes) : Keeps a0 s (handleAuth s arg).1 := by
+  unfold handleAuth
+  split
+  · exact keeps_reply h _ _ _
+  split
+  · exact keeps_reply h _ _ _
+  rename_i hda
+  have hda : s.c.didAuth = false := by simpa using hda
+  split
+  · exact keeps_reply h _ _ _
+  split
+  · exact keeps_reply h _ _ _
+  rename_i hal
+  have hal : authAllowed s = true := by simpa using hal
+  simp only []
+  split
+  · exact keeps_reply h _ _ _
+  split
+  · exact Keeps.refl h
+  rename_i id hid
+  split
+  · exact keeps_write h _
+  have hsame := popAuth_same s
+  generalize popAuth s = p at hsame
+  obtain ⟨r, s1⟩ := p
+  simp only at hsame ⊢
+  have hg1 : Good a0 s1 := hsame.good h
+  have hid1 : s1.c.session = some id := by rw [hsame.c]; exact hid
+  have hda1 : s1.c.didAuth = false := by rw [hsame.c]; exact hda
+  have hal1 : (s1.c.tls || s1.cfg.insecureAuth) = true := by
+    have : authAllowed s1 = authAllowed s := by simp [authAllowed, hsame.c, hsame.cfg]
+    simpa [authAllowed] using this.trans hal
+  have hg2 : ∀ m : Bytes, Good a0 (emit s1 (.authMech id m r)) := by
+    intro m
+    refine hg1.extend [.authMech id m r] rfl rfl ?_ (by simpa using hg1.shape)
+    simp [Order.run, Order.step, abs, hid1, hda1, hal1]
+  split
+  · have hk : ∀ (f : Nat) (m : Bytes) (resp : Option Bytes),
+        Keeps a0 (emit s1 (.authMech id m .ok)) (saslLoop f (emit s1 (.authMech id m .ok)) resp).1 :=
+      fun f m resp => saslLoop_keeps (a0 := a0) f (hg2 m) id (by simpa using hid1) (by simpa using hda1)
+        (by simpa [authAllowed] using hal1) resp
+    exact ⟨(hk _ _ _).1, by rw [(hk _ _ _).2]; simp [hsame.cfg]⟩
+  · exact ⟨hg2 _, by simp [hsame.cfg]⟩
+  · exact ⟨write_good (hg2 _) _, by simp [hsame.cfg]⟩
+
+/-! ### STARTTLS -/
+
+theorem tlsUpgrade_c (s : S) :
+    (tlsUpgrade s).c = { s.c with tls := true, session := none, helo := [], didAuth := false, bdat := none,
+                                  bdatStatus := none, bytesReceived := 0, fromReceived := false, recipients := [] } ∧
+    True ∧ True := by
+  unfold tlsUpgrade
+  obtain ⟨rc, _, _, _, _⟩ := resetConn_c (forgetGreeting (logoutSess (switchWire s)))
+  obtain ⟨lc, _, _, _, _⟩ := logoutSess_c (switchWire s)
+  have fc : (forgetGreeting (logoutSess (switchWire s))).c = { (logoutSess (switchWire s)).c with helo := [], didAuth := false } := rfl
+  have sc : (switchWire s).c = { s.c with tls := true } := rfl
+  exact ⟨by rw [rc, fc, lc, sc], trivial, trivial⟩
+
+theorem tlsUpgrade_evs (s : S) :
+    (tlsUpgrade s).cfg = s.cfg ∧
+    ∃ n, (tlsUpgrade s).evs = panics n ++ (match s.c.session with | some id => [Ev.logout id] | none => []) ++ s.evs := by
+  unfold tlsUpgrade resetConn
+  obtain ⟨hc, hcfg, n, hev⟩ := abortBdat_spec (forgetGreeting (logoutSess (switchWire s)))
+  have hsess : (abortBdat (forgetGreeting (logoutSess (switchWire s)))).c.session = none := by
+    rw [hc]
+    have := (logoutSess_c (switchWire s)).1
+    simp [forgetGreeting, this]
+  have hrs : resetSess (abortBdat (forgetGreeting (logoutSess (switchWire s)))) =
+      abortBdat (forgetGreeting (logoutSess (switchWire s))) := by
+    unfold resetSess; simp [hsess]
+  rw [hrs]
+  refine ⟨?_, n, ?_⟩
+  · show (abortBdat (forgetGreeting (logoutSess (switchWire s)))).cfg = s.cfg
+    rw [hcfg]
+    unfold forgetGreeting logoutSess switchWire
+    simp only []
+    split <;> rfl
+  · show (abortBdat (forgetGreeting (logoutSess (switchWire s)))).evs = _
+    rw [hev]
+    unfold forgetGreeting logoutSess switchWire
+    simp only []
+    cases s.c.session <;> simp
+
+theorem handleStartTLS_keeps {a0 : A} {s : S} (h : Good a0 s) (hcl : s.c.closed = false) :
+    Keeps a0 s (handleStartTLS s) := by
+  unfold handleStartTLS
+  split
+  · exact keeps_reply h _ _ _
+  rename_i htls
+  have htls : s.c.tls = false := by simpa using htls
+  split
+  · exact keeps_reply h _ _ _
+  rename_i hav
+  have hav : s.cfg.tlsAvail = true := by simpa using hav
+  have hg0 := reply_good h 220 ⟨2, 0, 0⟩ "Ready to start TLS"
+  generalize hs0 : reply s 220 ⟨2, 0, 0⟩ "Ready to start TLS" = s0 at hg0 ⊢
+  have hc0 : s0.c = s.c := by rw [← hs0]; simp
+  have hcfg0 : s0.cfg = s.cfg := by rw [← hs0]; simp
+  have hsame := popHs_same s0
+  rcases hpq : popHs s0 with ⟨ok, s1⟩
+  rw [hpq] at hsame
+  simp only [hpq] at hsame ⊢
+  have hg1 : Good a0 s1 := hsame.good hg0
+  have hc1 : s1.c = s.c := hsame.c.trans hc0
+  have hcfg1 : s1.cfg = s.cfg := hsame.cfg.trans hcfg0
+  cases ok with
+  | false =>
+    simp (config := { failIfUnchanged := false }) only [Bool.not_false, if_true]
+    refine ⟨reply_good ?_ _ _ _, by simp [hcfg1]⟩
+    refine hg1.extend [.tlsStart false] rfl rfl ?_ (by simpa using hg1.shape)
+    simp [Order.run, Order.step, abs, hc1, hcl, htls, hcfg1, hav]
+  | true =>
+    simp (config := { failIfUnchanged := false }) only [Bool.not_true, Bool.false_eq_true, if_false]
+    obtain ⟨ucfg, n, uev⟩ := tlsUpgrade_evs (emit s1 (.tlsStart true))
+    obtain ⟨uc, _, _⟩ := tlsUpgrade_c (emit s1 (.tlsStart true))
+    have hcl1 : s1.c.closed = false := by rw [hc1]; exact hcl
+    have htls1 : s1.c.tls = false := by rw [hc1]; exact htls
+    have hav1 : s1.cfg.tlsAvail = true := by rw [hcfg1]; exact hav
+    refine ⟨?_, by rw [ucfg]; simp [hcfg1]⟩
+    have hshape : Shape (tlsUpgrade (emit s1 (.tlsStart true))).c := by
+      rw [uc]
+      exact ⟨fun hc => by simp [hcl1] at hc, fun _ hf => by simp at hf, fun hb => by simp at hb, fun _ _ => ⟨rfl, rfl⟩⟩
+    cases hs : s1.c.session with
+    | none =>
+      refine hg1.extend ([.tlsStart true] ++ panics n) (by rw [ucfg]; rfl) ?_ ?_ hshape
+      · rw [uev]; simp [hs, panics]
+      · rw [Order.run_append]
+        have h1 : Order.run s1.cfg (abs s1.c) [.tlsStart true] =
+            .ok { abs s1.c with tls := true } := by
+          simp [Order.run, Order.step, abs, hs, hcl1, htls1, hav1]
+        rw [h1]
+        simp only []
+        rw [run_panics _ _ _ (by simp [abs])]
+        rw [uc]
+        simp [abs, hs]
+    | some id =>
+      refine hg1.extend ([.tlsStart true, .logout id] ++ panics n) (by rw [ucfg]; rfl) ?_ ?_ hshape
+      · rw [uev]; simp [hs, panics]
+      · rw [Order.run_append]
+        have h1 : Order.run s1.cfg (abs s1.c) [.tlsStart true, .logout id] =
+            .ok { abs s1.c with tls := true, live := none, upgrading := false, mailOk := false, nrcpt := 0,
+                                transfer := false, authed := false } := by
+          simp [Order.run, Order.step, abs, hs, hcl1, htls1, hav1]
+        rw [h1]
+        simp only []
+        rw [run_panics _ _ _ rfl]
+        rw [uc]
+        simp [abs, hs]
+
 end SmtpV.Server
